@@ -157,6 +157,8 @@ def sweep(
         if t2 >= t3:
             t1 = tb * dz2i + ta * dx2i + tc * dy2i
             t3d = (t1 + (t2 - t3) ** 0.5) / dsum
+            if t3d < tnve:
+                t3d = Big
 
     # Select minimum time
     t0 = tt[i, j, k]
